@@ -116,7 +116,9 @@ func (s *Service) Start(ctx context.Context) error {
 		return ErrServiceAlreadyStarted
 	}
 
+	started := false
 	s.doStart.Do(func() {
+		started = true
 		defer s.isStarted.Store(true)
 		ec := &s.ec
 		ehSignal := make(chan struct{})
@@ -181,6 +183,13 @@ func (s *Service) Start(ctx context.Context) error {
 			ec.Add(s.Run(ctx))
 		}()
 	})
+
+	if !started {
+		// the service ran (and returned) between the isFinished check
+		// and the swap above: this call did not start anything.
+		s.isRunning.Store(false)
+		return ErrServiceReturned
+	}
 
 	return nil
 }
